@@ -516,6 +516,11 @@ def full_check(run, cid, w, spell, opts, rnd, limit, truth=True, kinds=("edit", 
     exp, trace, hpat, renames, ngen = history_expectation(w.root)
     if renames:
         return None
+    if "@fp" in opts:
+        fp = os.path.join(w.tmp, "flat_patterns.txt")
+        with open(fp, "w", encoding="utf8") as f:
+            f.write("*.bin\nA/deep/\n")
+        opts = [fp if o == "@fp" else o for o in opts]
     new = run_flatten(run, cid, w, spell, opts, dest_name)
     if new is None:
         return None
@@ -732,7 +737,7 @@ def main():
         "verify -pl on the unchanged tree and after single alterations; non-trivial = distinct case whose history records at "
         "least one file",
         bound="13 trees (<= 9 files, depth <= 4; spaces, NFC/NFD twins, XML-special, U+2028, prefix siblings, case pairs, ascmhl "
-        "look-alikes, equal base names, equal contents, empty files, file symlinks, files at 1 MiB -1/0/+1), 17 scripted histories "
+        "look-alikes, equal base names, equal contents, empty files, file symlinks, files at 1 MiB -1/0/+1), 18 scripted histories "
         "of 1..12 generations (changing format sets, failed generations restored / left failing, -sf only / mixed / repeated, -n, "
         "deleted and late-added files, -i / -ii / negated / slashed patterns, folder<->file replacement), seeded random scripts "
         "(quick 12 x <= 7 steps, thorough 200 x <= 16 steps), 6 hand-written histories (failed entry before the first good one, "
@@ -757,6 +762,9 @@ def main():
         ("n", ["-n"]),
         ("i", ["-i", "*.nothing", "-i", "no such dir/"]),
         ("creator", ["--author_name", "A <&> \"B\"", "--author_email", "a@b", "--comment", "x y", "--location", "läb"]),
+        # patterns given to flatten itself: the statement still wants every recorded path in the packing list
+        ("itxt", ["-i", "*.txt", "-i", "*.txt"]),
+        ("iifile", ["-ii", "@fp"]),
     ]
 
     # ---- (1) scripted histories made by the real create
